@@ -184,7 +184,12 @@ impl Read for ScriptedSource<'_> {
             return Ok(0);
         }
         st.max_pos_at_call = st.max_pos_at_call.max(st.pos);
-        let end = self.cfg.fault_at.map_or(self.cfg.data.len(), |k| k.min(self.cfg.data.len()));
+        // The failure at `fault_at` is reported ONCE. A correct reader never calls again after it (the
+        // C09 oracle counts such calls); a reader that does - e.g. one that takes the error for a
+        // transient condition and retries - finds that the data goes on behind the failure, so that
+        // what it does with it is observable (instead of the exploration hanging in a retry loop).
+        let failed_once = st.err_returned > 0;
+        let end = if failed_once { self.cfg.data.len() } else { self.cfg.fault_at.map_or(self.cfg.data.len(), |k| k.min(self.cfg.data.len())) };
         let mut fit = buf.len().min(end.saturating_sub(st.pos));
         if let Some(bs) = self.cfg.boundaries {
             // next boundary strictly after pos
@@ -194,7 +199,11 @@ impl Read for ScriptedSource<'_> {
             }
         }
         if fit == 0 {
-            if self.cfg.fault_at.map_or(false, |k| k <= self.cfg.data.len()) {
+            if st.eof_returned > 100_000 {
+                // loop breaker: a caller that polls a finished source forever becomes a panic outcome
+                panic!("scripted source: polled 100000 times after it reported the end of the input");
+            }
+            if !failed_once && self.cfg.fault_at.map_or(false, |k| k <= self.cfg.data.len()) {
                 st.err_returned += 1;
                 return Err(io::Error::new(FAULT_KINDS[self.cfg.fault_kind % FAULT_KINDS.len()], FaultPayload));
             }
